@@ -163,8 +163,9 @@ CHECKS = {
         "Drawn IntEnum declarations (1-8 members, boundary/negative/huge ordinals) using the real ProtocolEnumMeta x "
         "sequences of 1-24 constructions mixing declared and undeclared values (bools, beyond 2^64), every clause "
         "(identity for declared, isinstance/eq/hash/name/value/int/dict-key for undeclared, member set unchanged) "
-        "checked after every step; every integer 0..64008 for 8 fixed and several drawn enums. Part (a) only: "
-        "generated enums are exercised by C01-C03 (unknown ordinals preserved through read/write).",
+        "checked after every step; every integer 0..64008 for 8 fixed and several drawn enums. Part (b): the enum "
+        "classes of ~640 (quick) / ~8000 (thorough) generated protocol packages go through the same oracle; "
+        "read-then-write of unknown ordinals is exercised by C01/C03.",
         "Trusted: Python int semantics as the model; zero-member enums are excluded (open known finding KF3).",
         "DESIGN.md 5/C14",
     ),
@@ -200,6 +201,29 @@ CHECKS = {
         "are deliberately not asserted.",
         "DESIGN.md 5/C19",
     ),
+    "C15": (
+        "grammar-based Hypothesis generation of spec trees x inputs x injected fault index; run-time wrapping of "
+        "every generated serialize/deserialize with an entry-mode == exit-mode invariant",
+        "Every generated serialize/deserialize (top level and every nested struct / case class, wrapped at run "
+        "time) is observed on valid objects, invalid objects, valid/truncated/corrupt bytes, both entry modes, "
+        "fault-free and with a writer/reader that raises at its k-th operation for drawn k over the whole run; the "
+        "mode at exit (return or raise) must equal the mode at entry. Sampled: ~2k trees / ~48k observed top-level "
+        "calls quick, ~25k trees thorough.",
+        "Trusted: faults are injected at the public writer/reader operations; the wrapper observes the public mode "
+        "properties.",
+        "DESIGN.md 5/C15",
+    ),
+    "C20": (
+        "grammar-based Hypothesis generation of spec trees x drawn first-import module; fresh-interpreter "
+        "identity oracles over module paths and public names",
+        "For each generated tree and each drawn first import (static and generated module paths) a fresh "
+        "interpreter imports it and then eolib; walking attributes from eolib along every module path must yield "
+        "sys.modules[path], and every public name (static: ast-derived honouring __all__; generated: the tree's "
+        "types) must be one object in its defining module, its home subpackage and eolib. Sampled: ~160 trees x "
+        "<= 4 first imports quick, ~2400 trees thorough.",
+        "Trusted: ast-derived list of public names; one interpreter (3.12.1).",
+        "DESIGN.md 5/C20",
+    ),
 }
 
 NOT_APPLICABLE = {}
@@ -220,7 +244,7 @@ def main():
             "evidence_file": f"/verif/evidence/{pid}.json",
             "replay_cmd_template": f"{PY} {pid} --replay {{path}}",
             "engine": "vcheck",
-            "level_claimed": {"category": "exploration", "text": text, "design_ref": ref},
+            "level_claimed": {"category": "fault_enumeration" if pid == "C15" else "exploration", "text": text, "design_ref": ref},
             "level_note": note,
             "technique": tech,
         })
